@@ -36,6 +36,33 @@ def run(ctx, replay_case):
         ctx.violations.append({"kind": "correspondence", "what": "model and implementation disagree on a well-formed encoding",
                                "replay": {"correspondence": "DEC strict G1", "type": cases[i][0], "hex": cases[i][2].hex(),
                                           "model": e, "impl": g, "disagreements": len(res["corr"])}})
+    # --- the same well-formed encodings decoded right after a decode that was abandoned (rejected or truncated input, strict and
+    # warn mode): what a decode yields must not depend on what was decoded before (state left behind by an aborted decode)
+    poisons = [("DEC", "S", "TPM2B_DIGEST", None, False, bytes.fromhex("0004dead")),
+               ("DEC", "W", "TPM2B_DIGEST", None, False, bytes.fromhex("0004dead")),
+               ("DEC", "S", "TPM2B_ECC_POINT", None, False, bytes.fromhex("0008000201")),
+               ("DEC", "S", "TPMT_HA", None, False, bytes.fromhex("0099")),
+               ("DEC", "S", "Command", None, False, bytes.fromhex("80020000001b0000017b00000009020000000000")),
+               ("DEC", "S", "TPM2B_PUBLIC", None, False, bytes.fromhex("00100023000b0000000000000010"))]
+    sample = rnd.sample(range(len(cases)), min(len(cases), 240 if ctx.tier == "quick" else 2400))
+    hops = []
+    for n_, i in enumerate(sample):
+        hops.append(poisons[n_ % len(poisons)])
+        hops.append(res["ops"][i])
+    himpl = core.run_impl(hops)
+    nhist = 0
+    for n_, i in enumerate(sample):
+        if himpl[2 * n_ + 1] != res["impl"][i] and i not in res["monitor"]:
+            nhist += 1
+            if nhist <= 3:
+                key, v, b = cases[i]
+                k, e, g = suites.first_diff(res["impl"][i], himpl[2 * n_ + 1])
+                po = poisons[n_ % len(poisons)]
+                ctx.violations.append({"kind": "concrete", "signature": f"decode-after-abandoned:{po[2]}",
+                                       "what": f"well-formed encoding of {key} decodes differently right after an abandoned decode of {po[2]}",
+                                       "replay": {"history": [{"type": po[2], "mode": {"S": "strict", "W": "warn"}[po[1]], "hex": po[5].hex()},
+                                                              {"type": key, "mode": "strict", "hex": b.hex()}],
+                                                  "line": k, "expected": e, "observed": g}})
     # --- whole messages: commands, responses (under their command's code and encryption flag) and exchanges as streams.
     # (a) model == implementation; (b) the implementation returns the object the generator built and ends cleanly;
     # (c) the message-level specification (`specCommand` / `specResponse` / `specStream`, the hypothesis of the message
@@ -76,7 +103,7 @@ def run(ctx, replay_case):
                 "failed responses mixed): model == implementation, clean end with the generator's object, and the Lean message "
                 "specification accepts the message with exactly its bytes and event count",
         "samples": [{"type": k, "hex": b.hex()[:80]} for k, _, b in cases[:: max(1, len(cases) // 6)]][:6],
-        "correspondence": {"ops": len(cases), "model_vs_impl_disagreements": len(res["corr"]),
+        "correspondence": {"ops": len(cases), "decodes_after_an_abandoned_decode": len(sample), "model_vs_impl_disagreements": len(res["corr"]),
                            "impl_vs_spec_disagreements": len(res["monitor"]),
                            "message_ops": len(mcases), "message_spec_rejections_or_mismatches": spec_bad},
         "distribution": {"messages": ds.kinds_distribution(mcases), "message_monitor_failures": msg_bad, "types_covered": len({k for k, _, _ in cases}), "types_without_value": novalue,
